@@ -33,6 +33,31 @@ def _cmp_text(left, op, right) -> str:
     return f"{src(left)} {sym} {src(right)}"
 
 
+def _emptiness(left, op, right):
+    """`len(X) > 0`, `len(X) != 0`, `0 < len(X)`, `len(X) >= 1` -> "X";  `len(X) == 0`, `len(X) < 1`, `len(X) <= 0` -> "not X"."""
+    def is_len(x):
+        return isinstance(x, ast.Call) and isinstance(x.func, ast.Name) and x.func.id == "len" and len(x.args) == 1 and not x.keywords
+
+    def num(x):
+        return x.value if isinstance(x, ast.Constant) and isinstance(x.value, (int, float)) and not isinstance(x.value, bool) else None
+
+    t = type(op)
+    if is_len(right) and num(left) is not None:
+        left, right = right, left
+        t = {ast.Lt: ast.Gt, ast.Gt: ast.Lt, ast.LtE: ast.GtE, ast.GtE: ast.LtE}.get(t, t)
+    if not (is_len(left) and num(right) is not None):
+        return None
+    c = num(right)
+    fn = {ast.Lt: lambda n: n < c, ast.LtE: lambda n: n <= c, ast.Gt: lambda n: n > c, ast.GtE: lambda n: n >= c, ast.Eq: lambda n: n == c, ast.NotEq: lambda n: n != c}.get(t)
+    if fn is None:
+        return None
+    zero, rest = fn(0), {fn(n) for n in (1, 2, 3, 5, 1000)}
+    if len(rest) != 1 or zero in rest:
+        return None
+    x = src(left.args[0])
+    return x if not zero else "not " + x
+
+
 def cconj(e, pol: bool = True) -> List[str]:
     if isinstance(e, ast.BoolOp):
         conj = (isinstance(e.op, ast.And) and pol) or (isinstance(e.op, ast.Or) and not pol)
@@ -49,6 +74,9 @@ def cconj(e, pol: bool = True) -> List[str]:
         op = e.ops[0]
         if not pol:
             op = _NEG[type(op)]()
+        emp = _emptiness(e.left, op, e.comparators[0])
+        if emp is not None:
+            return [emp]
         return [_cmp_text(e.left, op, e.comparators[0])]
     if isinstance(e, ast.Constant) and isinstance(e.value, bool):
         return [] if bool(e.value) == pol else ["False"]
